@@ -117,7 +117,6 @@ pub fn default_guards() -> Vec<String> {
         "update_of_uniquely_constrained_column", // D7, D24
         "table_name_reuse_while_session_open",   // U2, in the catalog's name index
         "concurrent_writers_same_row",           // D8
-        "concurrent_inserts_same_key",           // D10
         "update_on_table_with_unique_index",     // D7
         "delete_of_updated_row_in_multi_statement_txn", // D25
         "unique_key_reuse_while_session_open",   // U2
@@ -354,12 +353,17 @@ impl Gen {
 
     /// Does `row` carry, for some unique constraint of the table, a key that any row ever
     /// written to the table (whatever became of it) carried?
+    /// The key of `row` is the key of a row that somebody (who has not aborted) has deleted: inserting it
+    /// again overwrites the single index entry of that key (finding U2). A key held by a live row is an
+    /// ordinary duplicate, a key held by an open transaction's insert a write-write conflict, a key left
+    /// by an aborted insert is free.
     fn key_used_before(&self, ti: usize, row: &[Val]) -> bool {
         let t = &self.model.tables[ti];
         t.uniques.iter().any(|u| {
             let k = Self::key_str(row, &u.cols);
-            self.poisoned.contains(&(t.name.clone(), format!("{}:{k}", u.name)))
-                || t.rows.iter().any(|r| r.versions.iter().any(|v| Self::key_str(&v.vals, &u.cols) == k))
+            t.rows.iter().any(|r| {
+                r.deleters.iter().any(|d| self.model.txs[*d].status != crate::model::TxStatus::Aborted) && r.versions.iter().any(|v| Self::key_str(&v.vals, &u.cols) == k)
+            })
         })
     }
 
@@ -522,7 +526,7 @@ impl Gen {
             match exp {
                 // a DELETE that meets the pending (or later committed) delete of another transaction is
                 // refused with a write-write conflict; the loser rolls back (D8 / D27, repaired for deletes)
-                Expect::Fail("write conflict") if !self.p.has("concurrent_deleters_same_row") => return Some(stmt),
+                Expect::Fail("write conflict") if !self.p.has("concurrent_deleters_same_row") && !matches!(stmt, Stmt::Update { .. }) => return Some(stmt),
                 Expect::Fail(_) | Expect::Any => continue,
                 _ => {}
             }
